@@ -91,6 +91,11 @@ def main():
     except (common.MachineryError, tlcrun.TLCError) as e:
         print(f"MACHINERY-FAILURE property={prop}: {e}")
         return 2
+    except Exception as e:      # a bug of the harness is never a verdict
+        import traceback
+        traceback.print_exc()
+        print(f"MACHINERY-FAILURE property={prop}: {type(e).__name__}: {e}")
+        return 2
 
 
 if __name__ == "__main__":
